@@ -150,15 +150,15 @@ def run_one(params, ch):
 
 def parts(tier):
     twins = ('sync', 'async')
-    kmax = 4 if tier == 'quick' else 5
+    kmax = 4 if tier == 'quick' else 7
     sc = [{'nkeys': n, 'cb': cb, 'maxdata': md, 'twin': t, 'pub_bytes': pb, 'strays': False, 'push': True}
           for n in range(0, kmax + 1) for cb in (None, 'record', 'raise') for md in (4096, 256 * 1024, 1024 * 1024) for t in twins for pb in (False, True)
           if (md == 1024 * 1024 or n <= 2) and (not pb or n in (1, 2))]
     out = [Part('handshake', sc, run_one, {'*': None}, what='all device decision sequences for 0..%d keys x callback x maxdata x twins' % kmax, bound='complete for the decision alphabet')]
-    sc = [{'nkeys': n, 'cb': 'record', 'maxdata': 1024 * 1024, 'twin': t, 'pub_bytes': False, 'strays': True, 'push': False} for n in (0, 1, 2) for t in twins]
-    out.append(Part('strays', sc, run_one, {'*': None, 'stray': 2 if tier == 'quick' else 3}, what='stray packets of a dead stream before any awaited reply',
-                    bound='<=%d stray packets in total' % (2 if tier == 'quick' else 3)))
+    sc = [{'nkeys': n, 'cb': 'record', 'maxdata': 1024 * 1024, 'twin': t, 'pub_bytes': False, 'strays': True, 'push': False} for n in ((0, 1, 2) if tier == 'quick' else (0, 1, 2, 3)) for t in twins]
+    out.append(Part('strays', sc, run_one, {'*': None, 'stray': 2 if tier == 'quick' else 4}, what='stray packets of a dead stream before any awaited reply',
+                    bound='<=%d stray packets in total' % (2 if tier == 'quick' else 4)))
     sc = [{'nkeys': n, 'cb': cb, 'maxdata': 4096, 'twin': t, 'pub_bytes': False, 'strays': False, 'second': True, 'push': True}
-          for n in (0, 1, 2) for cb in (None, 'record') for t in twins]
+          for n in ((0, 1, 2) if tier == 'quick' else (0, 1, 2, 3)) for cb in (None, 'record') for t in twins]
     out.append(Part('reconnect', sc, run_one, {'*': None}, what='a second connect() on the same object under every outcome of the first', bound='keys <= 2, all decision sequences of both'))
     return out
